@@ -120,7 +120,8 @@ def ev_rw(case):
     cfg = case
     shape = tuple(cfg["shape"])
     offset = 0.5 if cfg["limits"] == "nonneg" else 0.0
-    lat = Lattice(shape, target_table(cfg["target"], shape), offset)
+    lat = Lattice(shape, target_table(cfg["target"], shape), offset, spacing=cfg.get("spacing", 1.0))
+    lat.int_start = bool(cfg.get("int_start"))
     T = cfg["T"]
     kind = cfg["sampler"]
     name = f"{kind}/{cfg['limits'] or 'free'}" + ("/oblique" if cfg.get("directions") and any(abs(c) not in (0, 1) or sum(map(abs, v)) != 1 for v in cfg["directions"] for c in v) else "")
@@ -138,8 +139,8 @@ def ev_rw(case):
     Au = np.zeros((n, n))  # the same, restricted to proposals that were not folded back by the bounds
     Qu = np.zeros((n, n))
     track_fold = kind == "PcaChain" and cfg["limits"] == "box"
-    blo = np.array([lat.offset - 0.5] * lat.d)
-    bhi = np.array([lat.offset + m - 0.5 for m in lat.shape])
+    blo = np.array([lat.offset - 0.5 * lat.spacing] * lat.d)
+    bhi = np.array([lat.offset + (m - 0.5) * lat.spacing for m in lat.shape])
     W = np.zeros((R + 1, n, n))  # step law by number of rejections (single phase only)
     cutmass = np.zeros(n)
     skipped = 0
@@ -363,6 +364,13 @@ def rw_cases(ck):
                             alph = ALPH["a4"]
                         cases.append(dict(sampler=sampler, limits=limits, T=T, target=target, shape=[N], alphabet=alph[0], weights=alph[1],
                                           R=2 if quick else 3, warm=warm, warm_delta=1.0 if (ti % 2 == 0) else -1.0))
+    # a lattice of spacing 1/2 whose whole-number states are handed over with an INTEGER dtype (a legal way to write a start)
+    for sampler in ("MetropolisChain", "GibbsChain", "PcaChain"):
+        for T in (1.0, 2.5):
+            cases.append(dict(sampler=sampler, limits=None, T=T, target="unimodal", shape=[7], alphabet=ALPH["a4"][0], weights=ALPH["a4"][1], R=2, warm=0,
+                              warm_delta=1.0, spacing=0.5, sigma=0.5, int_start=True))
+        cases.append(dict(sampler=sampler, limits=None, T=1.0, target="bimodal", shape=[3, 3], alphabet=[-1.0, 0.0, 1.0] if sampler == "MetropolisChain" else [-1.0, 1.0],
+                          weights=[0.3, 0.4, 0.3] if sampler == "MetropolisChain" else [0.5, 0.5], R=1, warm=0, warm_delta=1.0, spacing=0.5, sigma=0.5, int_start=True, maxeval2d=3))
     # 2-D
     for sampler in ("MetropolisChain", "GibbsChain", "PcaChain"):
         for limits in ([None, "box"] if sampler == "PcaChain" else [None, "box", "nonneg"]):
@@ -466,9 +474,15 @@ def ev_hmc(case):
             calls = []
 
             def logged(t, r, n):
-                if calls:
-                    ctx.note("leap2", tuple(t), tuple(r), n)
+                if len(calls) >= 2:
                     raise Cut()
+                if calls:
+                    # a second trajectory within one take_step (the retry after a rejection): observed as well
+                    t_in, r_in = t.copy(), r.copy()
+                    t1, r1 = orig(t, r, n)
+                    calls.append(2)
+                    ctx.note("leap2", tuple(t_in), tuple(r_in), int(n), tuple(t1), tuple(r1))
+                    return t1, r1
                 t_in, r_in = t.copy(), r.copy()
                 t1, r1 = orig(t, r, n)
                 calls.append(1)
@@ -541,13 +555,31 @@ def ev_hmc(case):
             slack[f"hmc-reversibility-{name}"] = max(slack.get(f"hmc-reversibility-{name}", 0), rev / 1e-9)
             if rev > 1e-9:
                 add_fail(f"hmc/{name}/trajectory-not-reversible", f"forward then momentum-flipped forward misses the start by {rev:.3g} (relative)", start=start, choices=ctx.choices)
-            if res is not None:
+            l2 = [o for o in ctx.obs if o[0] == "leap2"]
+            if res is not None and not l2:
                 if acc and not np.allclose(res["recorded"], t1, atol=1e-12):
                     add_fail(f"hmc/{name}/accepted-proposal-not-recorded", f"{res['recorded']} vs {tuple(t1)}", start=start, choices=ctx.choices)
                 if res["len"] != 2 or res["ntheta"] != 2:
                     add_fail(f"hmc/{name}/one-step-not-one-sample", f"{res}", start=start, choices=ctx.choices)
-            else:
-                l2 = [o for o in ctx.obs if o[0] == "leap2"]
+            if l2:
+                # the second attempt is decided with ITS OWN energies
+                _, t0b, r0b, nb, t1b, r1b = l2[0]
+                t0b, r0b, t1b, r1b = map(np.array, (t0b, r0b, t1b, r1b))
+                H0b = 0.5 * float(r0b @ iM @ r0b) - post0(t0b) / T
+                H1b = 0.5 * float(r1b @ iM @ r1b) - post0(t1b) / T
+                mb = min(1.0, math.exp(min(H0b - H1b, 50.0)))
+                seen_l2 = False
+                cmp2 = None
+                for o in ctx.obs:
+                    if o[0] == "leap2":
+                        seen_l2 = True
+                    elif o[0] == "cmp" and seen_l2:
+                        cmp2 = o
+                        break
+                if cmp2 is not None and abs(min(max(cmp2[3], 0.0), 1.0) - mb) > tol:
+                    add_fail(f"hmc/{name}/second-attempt-threshold-not-exp-H0-minus-H1",
+                             f"retry after a rejection: uniform compared with {cmp2[3]!r}; exp(H0-H1) of that attempt = {mb!r} (T={T})", start=start, choices=ctx.choices)
+                tags.add(f"hmc:{name}:second-attempt-observed")
                 if l2 and not acc:
                     if np.allclose(l2[0][1], t0, atol=1e-12):
                         add_fail("steplaw/HamiltonianChain/rejected-proposal-retried-not-recorded",
